@@ -10,11 +10,11 @@ are the ones the Go code uses (`geAdd`, `GeSub`, `ProjectiveGroupElement.Double`
 `FromBytes`, `ToBytes`), so that degenerate inputs (small-order points, x = 0,
 non-canonical y) go through the same arithmetic as in the code.
 
-Scalar multiplication is double-and-add with those formulas; go-rangers uses a
-sliding window (`GeDoubleScalarMultVartime`) / a signed radix-16 table
-(`GeScalarMultBase`). On points of the curve both give the same group element
-(group law of edwards25519: trusted base, sampled); for an off-curve `pk`
-(decoding flag ignored by `ECVRFVerify`) the driver answers `unmodelled`.
+`GeScalarMult` is the code's sliding window (`slide` + `GeDoubleScalarMultVartime`),
+transcribed exactly, so that even an off-curve `pk` (decoding flag ignored by
+`ECVRFVerify`) goes through the same arithmetic. `GeScalarMultBase` (signed radix-16
+table of multiples of B) is double-and-add here: B is on the curve, only the group
+element matters (group law: see Props/C16Curve).
 -/
 namespace Rangers.Model.VrfCurve
 open Rangers
@@ -180,15 +180,82 @@ def stringToPoint (s : Bytes) : Option Point :=
 def basePoint : Point :=
   (fromBytes (natToLE 32 46316835694926478169428394003475163141307993866256225615783033603165251855960)).1
 
-/-- k·P, double-and-add from the most significant bit (structural on the bit count). -/
-def smulAux (a : Point) : Nat → Nat → Point
-  | 0, _ => Point.zero
+/-- k·P, double-and-add from the most significant bit (structural on the bit count).
+    Used for `GeScalarMultBase` (the code uses a signed radix-16 table of multiples of B;
+    B is on the curve, so only the group element matters). -/
+def daWith {P : Type} (zero : P) (dbl : P → P) (add : P → P → P) (a : P) : Nat → Nat → P
+  | 0, _ => zero
   | n + 1, k =>
-    let r := dbl (smulAux a n (k / 2))
+    let r := dbl (daWith zero dbl add a n (k / 2))
     if k % 2 = 1 then add r a else r
 
-/-- `GeScalarMult`: result goes through `ToBytes`/`FromBytes` (flag ignored) as in the code. -/
-def smul (k : Nat) (a : Point) : Point := (fromBytes (encode (smulAux a 256 k))).1
+def smulAux (a : Point) (n k : Nat) : Point := daWith Point.zero dbl add a n k
+
+/-! #### `slide` + `GeDoubleScalarMultVartime` (sliding window, exactly as in the code) -/
+
+/-- carry loop of `slide`: from position k upwards turn 1s into 0s until a 0 is found and set to 1
+    (runs off the end of the array silently, like the code). -/
+def slideCarry : Nat → Nat → Array Int → Array Int
+  | 0, _, r => r
+  | fuel + 1, k, r =>
+    if k ≥ r.size then r
+    else if r[k]! = 0 then r.set! k 1
+    else slideCarry fuel (k + 1) (r.set! k 0)
+
+/-- inner loop of `slide` for position i, b = 1..6 -/
+def slideInner (i : Nat) : Nat → Nat → Array Int → Array Int
+  | 0, _, r => r
+  | fuel + 1, b, r =>
+    if b > 6 ∨ i + b ≥ r.size then r
+    else if r[i + b]! = 0 then slideInner i fuel (b + 1) r
+    else
+      let sh : Int := r[i + b]! * 2 ^ b
+      if r[i]! + sh ≤ 15 then
+        slideInner i fuel (b + 1) ((r.set! i (r[i]! + sh)).set! (i + b) 0)
+      else if r[i]! - sh ≥ -15 then
+        slideInner i fuel (b + 1) (slideCarry r.size (i + b) (r.set! i (r[i]! - sh)))
+      else r
+
+def slideOuter : Nat → Nat → Array Int → Array Int
+  | 0, _, r => r
+  | fuel + 1, i, r =>
+    if i ≥ r.size then r
+    else slideOuter fuel (i + 1) (if r[i]! ≠ 0 then slideInner i 7 1 r else r)
+
+/-- `slide`: signed sliding-window recoding of a 256-bit scalar (digits odd, |d| ≤ 15, or 0),
+    least significant first. -/
+def slide (k : Nat) : List Int :=
+  let bits : Array Int := (Array.range 256).map (fun i => ((k / 2 ^ i % 2 : Nat) : Int))
+  (slideOuter 256 0 bits).toList
+
+/-- The main loop of `GeDoubleScalarMultVartime` for one scalar, over any point operations:
+    digits most significant first, leading zeros skipped, `tbl j` = (2j+1)·A. -/
+def windowLoop {P : Type} (dbl : P → P) (add sub : P → P → P) (tbl : Nat → P) : List Int → P → P
+  | [], acc => acc
+  | d :: ds, acc =>
+    let t := dbl acc
+    let t := if d > 0 then add t (tbl (d.toNat / 2))
+             else if d < 0 then sub t (tbl ((-d).toNat / 2)) else t
+    windowLoop dbl add sub tbl ds t
+
+/-- table A, 3A, …, 15A built as in the code: A2 = 2A, Ai[j+1] = A2 + Ai[j] -/
+def oddTable {P : Type} (dbl : P → P) (add : P → P → P) (a : P) : Nat → P
+  | 0 => a
+  | j + 1 => add (dbl a) (oddTable dbl add a j)
+
+def windowMulWith {P : Type} (zero : P) (dbl : P → P) (add sub : P → P → P) (digitsLSB : List Int) (a : P) : P :=
+  let ds := digitsLSB.reverse.dropWhile (fun d => d == 0)
+  windowLoop dbl add sub (oddTable dbl add a) ds zero
+
+/-- a·A by the sliding window, on the model's coordinates (X, Y, Z as in the code). -/
+def slideMul (k : Nat) (a : Point) : Point := windowMulWith Point.zero dbl add sub (slide k) a
+
+/-- `GeScalarMult`: sliding window, then the result goes through `ToBytes`/`FromBytes`
+    (flag ignored) as in the code. Exact also for an off-curve `a`. -/
+def smul (k : Nat) (a : Point) : Point := (fromBytes (encode (slideMul k a))).1
+
+/-- the same with double-and-add (agrees with `smul` on curve points; kept for the theorems) -/
+def smulDA (k : Nat) (a : Point) : Point := (fromBytes (encode (smulAux a 256 k))).1
 
 /-- `GeScalarMultBase`. -/
 def smulBase (k : Nat) : Point := smulAux basePoint 256 k
